@@ -313,6 +313,18 @@ class CallListerVisitor(ast.NodeVisitor):
             self.namespace[node.rest] = Unknown(node)
         self.generic_visit(node)
 
+    def visit_For(self, node):
+        # what a later statement of the body does to a name is in effect when
+        # the next iteration runs the earlier ones: walk the loop once for
+        # its effect on names, then again to record the calls
+        ncalls, nrevisit = len(self.calls), len(self.to_revisit)
+        self.generic_visit(node)
+        del self.calls[ncalls:]
+        del self.to_revisit[nrevisit:]
+        self.generic_visit(node)
+
+    visit_AsyncFor = visit_While = visit_For
+
     def visit_ListComp(self, node):
         # the targets are bound before the element is evaluated
         for generator in node.generators:
